@@ -256,6 +256,7 @@ def _oracle(w, drv, sc, t_end, stats, out):
             for n in [n for n, h in reg.items() if h == host]:
                 del reg[n]
                 history[n][-1][1] = t
+                history[n][-1].append("crashed")
                 dontcare.add(n)
     stats["partitions"] = sum(1 for o in sc["ops"] if o["op"] == "partition")
     # once an update has taken effect the owner no longer advertises the replaced version: a superseded SRV/TXT with a
@@ -371,7 +372,11 @@ def _oracle(w, drv, sc, t_end, stats, out):
             for n2, hist2 in history.items():
                 for v2 in hist2:
                     r2 = SvcRecords(v2[2])
-                    if r2.server.lower() == r.server.lower() and v2[0] <= t_b and (v2[1] is None or v2[1] >= t_a - 120.0):
+                    # (an address that an update took away is withdrawn with the update's announcements: it may be
+                    # listed for the 1.5 s it takes them to arrive, not for the rest of its TTL - third audit, D61)
+                    # (what a crashed host advertised is never withdrawn: it stays until its TTL is over)
+                    grace = 120.0 if len(v2) > 3 else 1.5
+                    if r2.server.lower() == r.server.lower() and v2[0] <= t_b and (v2[1] is None or v2[1] >= t_a - grace):
                         host_addrs |= {a.rdata for a in r2.addrs}
             own = {a.rdata for a in r.addrs}
             # cache-first lookups return the address records of that host cached at that instant (address records
